@@ -75,6 +75,18 @@ def payload(kind):
             _CACHE[kind] = C.mode1_2352(akai_payload())
         elif kind == "roland":
             _CACHE[kind] = roland_payload()
+        elif kind.startswith("roland_co"):
+            # numeric coincidence: the left half's start point (in bytes) equals the address of the right half's first cluster
+            # in the data area (k clusters), so that position values of different coordinate systems meet while both are read
+            k = int(kind[len("roland_co"):])
+            cw = R.CLUSTER_WORDS
+            smp = {0: {"name": "CO -L", "chain": list(range(10, 10 + k + 2)), "points": [k * cw, k * cw, k * cw + 8999, k * cw, k * cw + 8999], "mode": 2, "seq": 1},
+                   1: {"name": "CO -R", "chain": [k, k + 1], "points": [0, 0, 8999, 0, 8999], "mode": 2, "seq": 2},
+                   2: {"name": "FWD", "chain": [30, 31], "points": [5, 5, 6000, 5, 6000], "mode": 2, "seq": 3}}
+            model = {"volumes": [{"name": "VOL", "perfs": [0]}], "performances": {0: {"name": "PERF0", "patches": [0]}},
+                     "patches": {0: {"name": "PATCH0", "partials": [0]}}, "partials": {0: {"name": "PART0", "samples": [0, 1, 2]}},
+                     "samples": smp}
+            _CACHE[kind] = R.build_roland(model)[0]
         elif kind == "akai_cut":
             # the image file ends inside the second sector of WIDE-R (sector 22 of chain 20, 22, 21): an incomplete copy
             _CACHE[kind] = akai_payload()[:22 * S + 1000]
@@ -240,6 +252,10 @@ def configs(quick):
     out.append({"name": "akai_cut:wide-stereo", "kind": "akai_cut", "parts": [
         {"path": ["A:", "VOL1", "WIDE-L"], "path2": ["A:", "VOL1", "WIDE-R"], "ops": [["next"]] * 7, "stepwise": True},
         P(A1, ("read", 4096), ("read", S + 1))]})
+    for k in (2, 3, 4, 5):
+        out.append({"name": f"roland_co{k}:stereo+stream", "kind": f"roland_co{k}", "parts": [
+            {"path": ["VOL", "PERF0", "CO -L"], "path2": ["VOL", "PERF0", "CO -R"], "ops": [["next"]] * 4, "stepwise": True},
+            P(("VOL", "PERF0", "FWD"), ("read", 4096), ("read", 4096))]})
     out.append({"name": "roland:big-blocks", "kind": "roland", "parts": [
         P(("VOL", "PERF0", "HALFA"), ("seek", 10), ("read", 30000), ("read", 8192)), P(("VOL", "PERF0", "CONT"), ("read", 20000), ("read", 4096)),
         P(("VOL", "PERF0", "REV"), ("read", 6000), ("read", 4096))]})
@@ -373,7 +389,7 @@ class Check(CheckBase):
     title = "Sample streams sharing one image file handle do not disturb one another"
     rule = ("per configuration (AKAI raw and inside MODE1/2352: two files of one partition, one fragmented, one file of a "
             "second partition, an L/R pair through the transcoder (also on an image file that ends inside the right half), a three-sector pair with a contiguous left and a fragmented right half, lazy directory listings; Roland: forward + reverse-mode "
-            "sample + listing of another performance, a shared sample with a leading-cluster offset, two samples living in one fragmented chain, two reverse-mode samples and a reverse-mode L/R pair; CDDA: three tracks): ALL interleavings of the participants' call programs "
+            "sample + listing of another performance, a shared sample with a leading-cluster offset, two samples living in one fragmented chain, two reverse-mode samples and a reverse-mode L/R pair, four pairs in which the left half's start point equals the address of the right half's first cluster; CDDA: three tracks): ALL interleavings of the participants' call programs "
             "(block reads of 1, 2, 4096, sector-1, sector+1 bytes and of 6146..30000 bytes over files of five sectors / four clusters, sector-aligned reads of a contiguous file that end "
             "exactly on a sector boundary, read-to-end requests, absolute seeks, ls of unrealised directories, transcoder "
             "steps) on one fresh image object per schedule; thorough adds 3x3-step programs over all 25 block-size pairs. "
